@@ -166,3 +166,30 @@ Definition null_safe (a b : node) : bool := negb (has_null_leaf a && has_content
 (* the diff shows a difference *)
 Definition shows_difference (es : list entry) : bool :=
   existsb (fun e => match e_action e with ASame => false | _ => true end) es.
+
+(* ---- the computable form of [faces_ok]: walk the two documents along their
+   common locations (mapping values by key, sequence elements by position; set
+   members are scalars) and test every facing pair ---- *)
+Definition clash_b (a b : node) : bool := negb (is_null_leaf a && has_content b).
+
+Fixpoint faces_b (a b : node) {struct a} : bool :=
+  clash_b a b && clash_b b a &&
+  match a, b with
+  | NMap _ kvs, NMap _ kvs' =>
+      (fix go (l : list (node * node)) : bool :=
+         match l with
+         | [] => true
+         | kv :: r =>
+             match assoc_key (leaf_value (fst kv)) kvs' with
+             | Some w => faces_b (snd kv) w
+             | None => true
+             end && go r
+         end) kvs
+  | NSeq _ els, NSeq _ els' =>
+      (fix go (l l' : list node) {struct l} : bool :=
+         match l, l' with
+         | x :: r, y :: r' => faces_b x y && go r r'
+         | _, _ => true
+         end) els els'
+  | _, _ => true
+  end.
